@@ -60,7 +60,9 @@ MANIFEST = dict(
          "and overloaded constructors, the generated struct constructor; every supplied subset x every split, wrongly typed / "
          "surplus / unknown / duplicate / missing arguments, bad list items at every index; expectations computed from the "
          "declaration (trace of received values incl. the library's defaults, result-then-out tuple, sizes from the dimension "
-         "expressions); per-call allocation balance; sequences of state-changing method calls over constructed and "
+         "expressions); per-call allocation balance and reference-count balance of every list / struct / class argument "
+         "after the result is dropped; fixed-size char members between other members assigned through constructor and "
+         "setter with texts shorter than, equal to and longer than the member; sequences of state-changing method calls over constructed and "
          "library-owned objects (identity / aliasing). Trusted: Lean kernel; the abstraction of CPython's vgetargskeywords; "
          "the translator's pattern table (which template lines acquire / release / hand on), its C-API arity table and the "
          "value classes per format unit; that a list argument's post-parse conversion can be folded into the unit's accepted "
